@@ -780,6 +780,15 @@ def det_cases(rng, pools, tier, prefixes=()):
         rows.append(("d%d" % i, str(cfg), text))
         if i % 5 == 0:
             rows.append(("d%dx" % i, str(rng.randrange(8)), text + " <<< |>"))
+    # what the *first* expansion of a kind was must not matter for the later ones: the history starts and ends with invocations
+    # of every async kind that differ in their options (the second process expands the same inputs in reverse order, so its
+    # first invocation of each kind is this process' last one; seeded change C20-m caches per-kind helper text)
+    for cfg in (2, 3, 6, 7):
+        rows.insert(0, ("dfirst%d" % cfg, str(cfg), "futures_crate_path(::first::futures) custom_joiner(first_join!) a |> f ~=> g, b ?? h"))
+        rows.append(("dlast%d" % cfg, str(cfg), "futures_crate_path(::last::futures) custom_joiner(last_join!) a |> f ~=> g, b ?? h"))
+    for cfg in (0, 1, 4, 5):
+        rows.insert(0, ("dfirst%d" % cfg, str(cfg), "custom_joiner(first_join!) lazy_branches(true) a |> f ~=> g, b ?? h"))
+        rows.append(("dlast%d" % cfg, str(cfg), "custom_joiner(last_join) lazy_branches(false) a |> f ~=> g, b ?? h"))
     # rejected inputs are invocations too: the diagnostics (all of them, in their order) must be reproducible — inputs
     # with several different mistakes at once: two or three different options each given twice, in every arrangement
     vals = {"custom_joiner": ["j!", "k!"], "lazy_branches": ["true", "false"], "transpose_results": ["true", "false"], "futures_crate_path": ["::f", "::g"]}
